@@ -387,7 +387,8 @@ def run_check(prop: str, tier: str) -> int:
                          f"first_i={g['fl']['i']} :: {g['v']['msg'][:160]}")
         for cls, g in list(sorted(groups.items(), key=lambda kv: kv[1]["fl"]["i"]))[:4]:
             fl, v = g["fl"], g["v"]
-            scen, info = minimise(z0, fl["scenario"], cls, timeout)
+            scen, info = minimise(z0, fl["scenario"], cls, timeout,
+                                  max_wall=45.0 if tier == "quick" else 300.0)
             res = z0.call({"cmd": "exec", "scenario": scen, "timeout": timeout})
             vv = has_class(res, cls) if "harness_error" not in res else None
             if vv is None:  # minimised does not reproduce: fall back to the original
